@@ -226,6 +226,7 @@ def run_regen(params, ch):
     tok = common.rng('regen').randbytes(20)
     em = b'\x00\x01' + b'\xff' * (256 - 3 - len(SHA1_PREFIX) - 20) + b'\x00' + SHA1_PREFIX + tok
     sigs = []
+    from adb_shell.auth.keygen import write_public_keyfile
     for gen in range(3):
         keygen(path)
         _key, n, e = load_numbers(path)
@@ -240,6 +241,18 @@ def run_regen(params, ch):
                 viol.append({'msg': 'generation %d: %s.GetPublicKey() is not the public key file on disk' % (gen, kind)})
             if kind == params['signer']:
                 sigs.append(bytes(sig))
+        # the regenerated public key file (written over the previous generation's file) must still be "<base64 of the 524-byte blob> user@host"
+        for step in ('keygen', 'write_public_keyfile again'):
+            if step != 'keygen':
+                write_public_keyfile(path, path + '.pub')
+            raw = open(path + '.pub', 'rb').read()
+            b64, sep, comment = raw.partition(b' ')
+            try:
+                blob = base64.b64decode(b64, validate=True)
+            except Exception:  # pylint: disable=broad-except
+                blob = b''
+            if len(blob) != 524 or int.from_bytes(blob[8:264], 'little') != n or sep != b' ' or b'@' not in comment or b' ' in comment.strip():
+                viol.append({'msg': 'generation %d (%s over an existing public key file): the file is not "<base64 of the 524-byte blob of this key> user@host": %r...%r' % (gen, step, raw[:12], raw[-24:])})
     if len(set(sigs)) != 3:
         viol.append({'msg': 'three different keys produced %d distinct signatures' % len(set(sigs))})
     return {'outcome': (params['signer'], len(viol)), 'viol': viol, 'nontrivial': (params['signer'], params['order']), 'sample': dict(params, generations=3), 'trans': 9}
